@@ -129,7 +129,12 @@ class OptionsCheck:
             "entries separated by blank lines, list keys present but empty "
             "when the option is not given; D = style A written to "
             "./torrentfile.ini and found through the working directory "
-            "(no --config-path)",
+            "(no --config-path); E = D with different files planted at the "
+            "lower-priority default locations; F = the options in "
+            "~/.torrentfile/torrentfile.ini with a different file below "
+            "~/.config",
+            "environment group: the routes compared in a working directory "
+            "that was removed and in one that refuses new files",
             "one two-file payload; values per option from a small alphabet",
             "CLI orders: every permutation and every content-path position "
             "for subsets of <= 3 flags; canonical, reversed and rotated "
@@ -158,6 +163,9 @@ class OptionsCheck:
                             gs.append({"version": version, "align": align,
                                        "out": outform, "a": a, "ws": wsi,
                                        "seed": seed, "tier": tier})
+        for version in ("1", "2", "3"):
+            gs.append({"kind": "env", "version": version, "seed": seed,
+                       "tier": tier})
         return gs
 
     # routes -----------------------------------------------------------
@@ -236,13 +244,34 @@ class OptionsCheck:
                 elif style == "B":
                     lines.append("align = false")
                 lines.append(f"out = {outarg}")
-                if style == "D":
-                    # the default location ./torrentfile.ini, found through the
-                    # current directory at the time of the call (HOME points
-                    # into the sandbox so that no real file is picked up)
+                if style in "DEF":
+                    # the default locations: ./torrentfile.ini, found through
+                    # the current directory at the time of the call, then
+                    # ~/.torrentfile/torrentfile.ini (HOME points into the
+                    # sandbox so that no real file is picked up).  E and F
+                    # also plant a different file at every location of lower
+                    # priority than the one holding the options.
                     cfgdir = os.path.join(outdir, "workdir")
                     os.mkdir(cfgdir)
-                    cfg = os.path.join(cfgdir, "torrentfile.ini")
+                    home1 = os.path.join(outdir, ".torrentfile")
+                    lower = [os.path.join(outdir, ".config", ".torrentfile"),
+                             os.path.join(outdir, ".config")]
+                    if style == "F":
+                        os.mkdir(home1)
+                        cfg = os.path.join(home1, "torrentfile.ini")
+                    else:
+                        cfg = os.path.join(cfgdir, "torrentfile.ini")
+                        if style == "E":
+                            lower.append(home1)
+                    if style in "EF":
+                        for d_ in lower:
+                            os.makedirs(d_, exist_ok=True)
+                            with open(os.path.join(d_, "torrentfile.ini"),
+                                      "w") as f:
+                                f.write("[config]\ncomment = decoy\nsource = "
+                                        "decoy\nprivate = true\nannounce = "
+                                        "http://decoy/\nout = " + os.path.join(
+                                            outdir, "decoy.torrent") + "\n")
                     with open(cfg, "w") as f:
                         f.write("\n".join(lines) + "\n")
                     oldhome = os.environ.get("HOME")
@@ -301,9 +330,93 @@ class OptionsCheck:
                     orders.append(argv)
         return orders
 
+    def run_env(self, g, res):
+        """The same create through every route in working directories that
+        cannot take a file: `out` must mean the same wherever it is given."""
+        import builtins
+        import shutil
+        seed, version = g["seed"], g["version"]
+        sandbox = world.fresh_dir()
+        root = world.materialize(payload(seed), os.path.join(sandbox, "p"))
+        combos = []
+        for opts in self.combos():
+            nset = sum(1 for v in opts.values() if v is not None)
+            if nset in (0, len(OPT_ORDER)) or (
+                    nset == 2 and opts["announce"] and opts["comment"]):
+                combos.append(opts)
+        for opts in combos[:6]:
+            for env in ("cwd-removed", "cwd-unwritable"):
+                for outform in ("file", "dir"):
+                    outs = {}
+                    for route in ("kw", "cli", "config", "config-B"):
+                        wd = os.path.join(sandbox, "wd")
+                        os.mkdir(wd)
+                        real_open = builtins.open
+                        real_chdir = os.chdir
+
+                        def guarded(file, mode="r", *a, **k):
+                            if isinstance(file, (str, bytes, os.PathLike)) \
+                                    and any(c in mode for c in "wax+"):
+                                d = os.path.dirname(os.path.abspath(
+                                    os.fsdecode(file)))
+                                if d == wd:
+                                    raise PermissionError(
+                                        13, "Permission denied",
+                                        os.fsdecode(file))
+                            return real_open(file, mode, *a, **k)
+
+                        def chdir(path, first=[True]):
+                            # run_route enters the sandbox; go on to the
+                            # hostile working directory from there
+                            real_chdir(path)
+                            if first[0] and path == sandbox:
+                                first[0] = False
+                                real_chdir(wd)
+                                if env == "cwd-removed":
+                                    os.rmdir(wd)
+                        try:
+                            os.chdir = chdir
+                            if env == "cwd-unwritable":
+                                builtins.open = guarded
+                            outs[route] = self.run_route(
+                                route.split("-")[0], opts, version, False,
+                                outform, root, sandbox,
+                                style=route[-1] if "-" in route else "A")
+                        finally:
+                            builtins.open = real_open
+                            os.chdir = real_chdir
+                            shutil.rmtree(wd, ignore_errors=True)
+                        res.transitions += 1
+                        res.evals += 1
+                        res.validated += 1
+                    res.states += 1
+                    case = {"kind": "env", "opts": opts, "version": version,
+                            "align": False, "out": outform, "seed": seed,
+                            "env": env}
+                    ref = outs["kw"]
+                    for route, (st, raw) in outs.items():
+                        if route == "kw":
+                            continue
+                        same = (st == ref[0]) and (
+                            st != "ok" or normalise(raw) == normalise(ref[1]))
+                        res.outcomes[f"env:{'same' if same else 'differs'}"] \
+                            += 1
+                        if not same:
+                            res.violation(
+                                f"C20|{route}|differs-from-keyword-route|"
+                                f"v{version}|{env}|{st}",
+                                dict(case, route=route),
+                                (st, ref[0], raw if st != "ok" else None))
+            for n in os.listdir(sandbox):
+                if n.startswith("out"):
+                    shutil.rmtree(os.path.join(sandbox, n), ignore_errors=True)
+        return res
+
     def run_group(self, g):
         res = core.Result()
         seed = g["seed"]
+        if g.get("kind") == "env":
+            return self.run_env(g, res)
         sandbox = world.fresh_dir()
         root = world.materialize(payload(seed), os.path.join(sandbox, "p"))
         version, align, outform = g["version"], g["align"], g["out"]
@@ -315,7 +428,7 @@ class OptionsCheck:
             check = expected_fields(opts, version, align)
             outs = {}
             for route in ("kw", "cli", "config", "config-B", "config-C",
-                          "config-D"):
+                          "config-D", "config-E", "config-F"):
                 outs[route] = self.run_route(
                     route.split("-")[0], opts, version, align, outform, root,
                     sandbox, style=route[-1] if "-" in route else "A")
@@ -343,7 +456,7 @@ class OptionsCheck:
                 res.outcomes["ok" if not probs else probs[0]] += 1
             if "kw" in metas:
                 for route in ("cli", "config", "config-B", "config-C",
-                              "config-D"):
+                              "config-D", "config-E", "config-F"):
                     if route in metas and metas[route] != metas["kw"]:
                         diff = sorted(
                             k.decode() for k in set(metas[route]) | set(
@@ -383,6 +496,13 @@ class OptionsCheck:
         return res
 
     def replay(self, case):
+        if case.get("kind") == "env":
+            res = self.run_env({"seed": case["seed"],
+                                "version": case["version"]}, core.Result())
+            return [{"sig": v["sig"], "detail": v["detail"]}
+                    for v in res.violations
+                    if all(v["case"].get(k) == case.get(k)
+                           for k in ("opts", "out", "env", "route"))]
         sandbox = world.fresh_dir()
         root = world.materialize(payload(case["seed"]),
                                  os.path.join(sandbox, "p"))
@@ -393,7 +513,8 @@ class OptionsCheck:
                                    sandbox)
         route = case["route"]
         style = "A"
-        if route in ("config-B", "config-C", "config-D"):
+        if route in ("config-B", "config-C", "config-D", "config-E",
+                     "config-F"):
             route, style = "config", route[-1]
         argv = None
         if route == "cli-order":
